@@ -553,6 +553,123 @@ def _is_zero_guard(g: Any) -> bool:
     return g in (("cmp", "==", R, c(0)), ("not", R)) or g == ("cmp", "==", c(0), R)
 
 
+def _atoms(g: Any) -> list[Any]:
+    if isinstance(g, tuple) and g and g[0] in ("and", "or"):
+        out = []
+        for x in g[1]:
+            out += _atoms(x)
+        return out
+    return [g]
+
+
+def _undefined_region(op: str, pos: list[Any]) -> bool:
+    """All positive guards only restrict R to a region where the property does not define the run-time result."""
+    allowed = []
+    if op in ("**", "^"):
+        allowed = [("cmp", "<", R, c(0))]
+    elif op in ("<<", ">>"):
+        allowed = [("cmp", "<", R, c(0)), ("cmp", ">=", R, c(32)), ("cmp", ">", R, c(31))]
+    if not allowed:
+        return False
+    for gd in pos:
+        if gd[0] == "and":
+            return False
+        if not all(a in allowed for a in _atoms(gd)):
+            return False
+    return True
+
+
+def _ev(t: Any, l: int, r: int) -> Any:
+    k = t[0]
+    if k == "L":
+        return l
+    if k == "R":
+        return r
+    if k == "c":
+        return t[1]
+    if k == "neg":
+        return -_ev(t[1], l, r)
+    if k == "abs":
+        return abs(_ev(t[1], l, r))
+    if k == "not":
+        return not _ev(t[1], l, r)
+    if k == "cmp":
+        a, b = _ev(t[2], l, r), _ev(t[3], l, r)
+        return {"==": a == b, "!=": a != b, "<": a < b, "<=": a <= b, ">": a > b, ">=": a >= b}[t[1]]
+    if k == "and":
+        return all(_ev(x, l, r) for x in t[1])
+    if k == "or":
+        return any(_ev(x, l, r) for x in t[1])
+    if k == "bin":
+        a, b = _ev(t[2], l, r), _ev(t[3], l, r)
+        f = _PYCONST.get(t[1])
+        if f is None:
+            raise ValueError(t[1])
+        v = f(a, b)
+        if v is None:
+            raise ValueError("range")
+        return v
+    raise ValueError(k)
+
+
+def _wrap(v: int) -> int:
+    return ((v + T31) % T32) - T31
+
+
+def _oracle(op: str, l: int, r: int) -> int | None:
+    """Factorio's table from the property text (None where the property does not define the result)."""
+    if op == "+":
+        return _wrap(l + r)
+    if op == "-":
+        return _wrap(l - r)
+    if op == "*":
+        return _wrap(l * r)
+    if op in ("**", "^"):
+        return _wrap(l**r) if 0 <= r <= 64 else None
+    if op == "<<":
+        return _wrap(l << r) if 0 <= r < 32 else None
+    if op == ">>":
+        return l >> r if 0 <= r < 32 else None
+    if op == "/":
+        if r == 0:
+            return 0
+        q = abs(l) // abs(r)
+        return _wrap(-q if (l < 0) != (r < 0) else q)
+    if op == "%":
+        if r == 0:
+            return 0
+        q = abs(l) // abs(r)
+        return l - r * (-q if (l < 0) != (r < 0) else q)
+    if op in ("AND", "&"):
+        return l & r
+    if op in ("OR", "|"):
+        return l | r
+    if op == "XOR":
+        return l ^ r
+    return None
+
+
+_SAMPLE = [0, 1, -1, 2, -2, 3, -3, 5, 7, -7, 10, 16, 31, 32, 33, 40, 63, 64, 100, 101, 255, 1000, 1001, 65535, 65536, -65536, T31 - 1, -T31]
+
+
+def _witness_against_oracle(op: str, guards: tuple, const: int):
+    seen = False
+    for l in _SAMPLE:
+        for r in _SAMPLE:
+            try:
+                if not all(bool(_ev(x, l, r)) == pol for x, pol in guards if _mentions_only_operands(x)):
+                    continue
+            except Exception:
+                continue
+            want = _oracle(op, l, r)
+            if want is None:
+                continue
+            seen = True
+            if want != const:
+                return (l, r, want)
+    return None if seen else "no-sample"
+
+
 def classify(op: str, paths: list[tuple[tuple, Any]]) -> Verdict:
     """paths: return paths of the folding function specialised to operator `op`."""
     paths = merge_paths(paths)
@@ -600,10 +717,19 @@ def classify(op: str, paths: list[tuple[tuple, Any]]) -> Verdict:
             zero_guarded = True
         if any(_is_zero_guard(x) for x in neg):
             zero_guarded = True
-        if pos and t in (NONE,) or (pos and t[0] == "c" and op in ("**", "^", "<<", ">>")):
-            continue  # range/magnitude guard that declines or yields a constant for out-of-range shifts/exponents
+        if pos and t in (NONE,):
+            continue  # a guard that declines to fold
         if pos and t[0] == "c":
-            return Verdict("UNRECOGNISED", "", f"guarded constant result {show(t)} under {[show(x) for x in pos]}")
+            # a guarded constant result: accepted outright for the run-time-undefined regions (negative exponent, shift amount outside 0..31),
+            # otherwise compared with the oracle on boundary witnesses of the guard region (the checker's own table, not repository code)
+            if _undefined_region(op, pos):
+                continue
+            w = _witness_against_oracle(op, g, t[1])
+            if w == "no-sample":
+                return Verdict("UNRECOGNISED", "", f"guarded constant result {show(t)} under {[show(x) for x in pos]}")
+            if w is not None:
+                return Verdict("DEVIATES", "guarded-constant", f"returns {show(t)} under {[show(x) for x in pos]}, but e.g. L={w[0]}, R={w[1]} gives {w[2]} at run time")
+            continue
         main.append((g, t))
     if not main:
         return Verdict("ABSENT", "", "every path declines")
